@@ -242,3 +242,59 @@ def check_no_evict_in_half_open(cb, rep, rule):
                    "%s, which the half-open closing decision compares with permitted_calls_in_half_open, can be decremented while half-open "
                    "(window eviction): with a window smaller than the permitted trials the breaker never decides and keeps admitting trial calls" % f)
     return ndec
+
+
+def check_window_dispatch(cb, rep, rule):
+    """both recorders choose the window (count-based counters vs time-based records) by the configured
+    sliding_window_type — the selector every reader (threshold evaluation, half-open decisions) uses.  A recorder
+    that dispatches on anything else files outcomes where the readers do not look."""
+    facts, tr = cb.facts, cb.tr
+    crate = facts.crates[CRATE]
+    n = 0
+    for role in ("record_success", "record_failure"):
+        R = cb.by_role(role)
+        if R is None:
+            rep.anchor_missing("circuit method with role " + role)
+            continue
+        rep.saw(R)
+        g = graph(R)
+        sites = []
+        for c in g.calls():
+            # time-based: push onto a container of the circuit
+            if c.name in ("push_back", "push", "push_front") and c.args:
+                recv = peel(tr.expand(tr.operand(R, c.args[0], c.loc)))
+                if recv[0] == "field" and recv[3] == cb.circuit_adt:
+                    sites.append(("time-based record", "TimeBased", c))
+                    continue
+            # count-based: a local helper that increments integer counters of the circuit
+            for d in c.targets_def():
+                hb = facts.bodies.get(d)
+                if hb is None or hb is cb.transition or hb.crate.name != CRATE or not cb._is_circuit_method(hb) or hb.def_ in cb.roles:
+                    continue
+                incs = 0
+                for i, blk in enumerate(hb.blocks):
+                    for j, s_ in enumerate(blk["stmts"]):
+                        if s_["k"] == "assign" and s_["lhs"]["p"]:
+                            last = s_["lhs"]["p"][-1]
+                            if isinstance(last, dict) and last.get("adt") == cb.circuit_adt:
+                                v = peel(tr.stmt_value(hb, i, j))
+                                if v[0] == "field" and peel(v[1])[0] == "binop":
+                                    v = peel(v[1])
+                                if v[0] == "binop" and v[1].startswith("Add"):
+                                    incs += 1
+                if incs:
+                    sites.append(("count-based counters", "CountBased", c))
+        for k, (what, want, c) in enumerate(sites):
+            n += 1
+            arm = None
+            for e in dominating_edges(tr, R, c.bb):
+                if e["kind"] == "enum" and e["label"] in ("CountBased", "TimeBased") and mentions_field(tr, e["node"], "sliding_window_type"):
+                    arm = e["label"]
+            ok = arm == want
+            rep.ob(rule, skey(R, "%s#%d" % (what.split()[0], k)), ok, c.where(),
+                   "%s are updated on the %s arm of config.sliding_window_type" % (what, want) if ok else
+                   "%s updates the %s %s: the threshold evaluation and the half-open decisions select the window by "
+                   "config.sliding_window_type, so outcomes recorded here are not seen by them"
+                   % (role, what, "without dispatching on config.sliding_window_type" if arm is None else "on the %s arm" % arm))
+    rep.floor(rule + ".sites", n, 4)
+    return n
